@@ -21,6 +21,9 @@ type Adapter struct {
 	Dir        string            `json:"dir"`        // directory (relative to /repo) the test file is overlaid into
 	Observe    map[string]string `json:"observe"`    // name -> contract-language expression over the entry state
 	Mode       string            `json:"mode"`       // free text passed to the test ("panic", "ensures", …)
+	// Witness: input used when the solver refutes an obligation without producing a model (quantified goals): the
+	// adapter's own witness is run on the real code; only a reproduced violation counts as a failing input.
+	Witness map[string]string `json:"witness"`
 }
 
 func loadAdapters() []Adapter {
